@@ -294,6 +294,10 @@ impl C02 {
         for variant in 0..6u8 {
             deliver(&mut b, vec![TokFault::FooterJsonVariant { variant }]);
         }
+        // one symbol written in the standard base64 alphabet
+        for nth in 0..16 {
+            deliver(&mut b, vec![TokFault::TextStdAlphabetAt { nth }]);
+        }
         // another byte string for the same signature scalar (S + kL)
         for k in 1..=15u8 {
             deliver(&mut b, vec![TokFault::SigAddOrder { k }]);
